@@ -86,13 +86,14 @@ func (t *topicsState) Set(message *packet.Publish) error {
 		Publish:   message,
 		LastAdded: t.stamp(message.Topic),
 	}
-	err := t.set(message.Topic, msg)
-	if err != nil {
-		return err
-	}
+	// the broadcast is built first: an entry that cannot be encoded must not enter the store
 	buf, err := proto.Marshal(&api.StateBroadcastEvent{
 		RetainedMessages: []*api.RetainedMessage{msg},
 	})
+	if err != nil {
+		return err
+	}
+	err = t.set(message.Topic, msg)
 	if err != nil {
 		return err
 	}
@@ -135,13 +136,14 @@ func (t *topicsState) Delete(topic []byte) error {
 		},
 		LastDeleted: t.stamp(topic),
 	}
-	err := t.set(topic, msg)
-	if err != nil {
-		return err
-	}
+	// the broadcast is built first: an entry that cannot be encoded must not enter the store
 	buf, err := proto.Marshal(&api.StateBroadcastEvent{
 		RetainedMessages: []*api.RetainedMessage{msg},
 	})
+	if err != nil {
+		return err
+	}
+	err = t.set(topic, msg)
 	if err != nil {
 		return err
 	}
